@@ -351,7 +351,7 @@ func (cr *caseRun) drain() {
 			continue
 		}
 		cr.opRdy(sc, 50)
-		for round := 0; round < 40; round++ {
+		for round := 0; round < 40 && !cr.flood; round++ {
 			cr.opScan(ch[0], ch[1], true, scanAll)
 			cr.opScan(ch[0], ch[1], false, scanAll)
 			if len(sc.held) == 0 {
@@ -404,10 +404,12 @@ func runCase(seed uint64, name, profile string, nops int, memq int64) lib.Case {
 			cr.opRdy(sc, 1+r.Intn(3))
 		}
 	}
-	for i := 0; i < nops; i++ {
+	for i := 0; i < nops && !cr.flood; i++ {
 		cr.step(w)
 	}
-	cr.drain()
+	if !cr.flood {
+		cr.drain()
+	}
 	for _, sc := range cr.clients {
 		sc.c.close()
 	}
